@@ -13,7 +13,7 @@ META = {
              "6, 8, 12, 16, 32, 64, '4', '0.5', '-2', '-1', '0.25'} x blockshape in {-1, 1, 2, 3, 4, 5, 6, 8, 12, 16, 32, ..., "
              "8192}^3 with product <= 2^17, for 3D and for 2D (first component 1): every tuple goes through "
              "define_blockshape_3d/2d; every accepted tuple is converted on a tiny cube (NumPy route; every 5th also "
-             "through SEG-Y; 2D through SEG-Y) and must yield a conformant file whose read_volume equals the codec "
+             "through SEG-Y; 2D through SEG-Y; integer tuples of the valid set and every 23rd grid tuple also through the sgy2sgz command line) and must yield a conformant file whose read_volume equals the codec "
              "image; a sample of rejected tuples is run through the converter to confirm no output is left; every "
              "member of the valid set (344 3D + 88 2D settings, each in its spellings) must be accepted; non-trivial = "
              "tuple accepted by define_blockshape; distinct = the tuple"),
@@ -82,7 +82,13 @@ def try_setting(case, ctx, d):
     if resolved is None and not case.get("convert_anyway"):
         return "refused", None
     try:
-        if two_d:
+        if route == "cli":
+            # the command-line entry point takes the same integers (negative rate = reciprocal, -1 = derive)
+            path, src = tiny_2d_segy(ctx.work) if two_d else tiny_3d_segy(ctx.work)
+            code, exc = conv.cli_invoke(["sgy2sgz", path, out, "--bits-per-voxel", int(bpv), "--blockshape", *[int(b) for b in bs]])
+            if code != 0:
+                raise exc if isinstance(exc, Exception) else RuntimeError(f"exit {code}")
+        elif two_d:
             path, src = tiny_2d_segy(ctx.work)
             conv.segy_convert(path, out, bpv, bs, header_detection="strip")
         elif route == "segy":
@@ -94,7 +100,7 @@ def try_setting(case, ctx, d):
     except Exception as e:
         if os.path.exists(out) and os.path.getsize(out) > 0:
             raise Violation("refusal-left-output", f"bpv={bpv!r} blockshape={bs}: {type(e).__name__}: {e}; {os.path.getsize(out)} bytes written")
-        if resolved is not None and library_exception(e) is None:
+        if resolved is not None and library_exception(e) is None and route != "cli":
             raise
         return "refused", resolved
     if resolved is None:
@@ -172,6 +178,19 @@ def shard_main(ctx):
     for rate, bs in gen.SETTINGS_2D:
         for r, b in spellings(rate, bs):
             items.append({"check": "valid", "bpv": r, "bs": list(b), "two_d": True, "route": "segy", "must_accept": True})
+    # the same through the command line: every valid setting in its integer spellings must be accepted, and a
+    # sample of the grid must fall in the same class as through the API
+    is_int = lambda v: isinstance(v, (int, np.integer)) and not isinstance(v, bool)
+    for two_d, settings in ((False, gen.SETTINGS_3D), (True, [s_ for s_ in gen.SETTINGS_2D if s_[0] >= 1])):
+        for rate, bs in settings:
+            for r, b in spellings(rate, bs):
+                if is_int(r):
+                    items.append({"check": "valid-cli", "bpv": int(r), "bs": list(b), "two_d": two_d, "route": "cli", "must_accept": True})
+    for two_d in (False, True):
+        for k, (bpv, bs) in enumerate(grid(two_d)):
+            if is_int(bpv) and k % 23 == 0:
+                items.append({"check": "grid-cli", "bpv": int(bpv), "bs": list(bs), "two_d": two_d, "route": "cli",
+                              "convert_anyway": k % 3 == 0})
     mine = items[ctx.shard::ctx.nshards]
     for case in mine:
         try:
